@@ -387,12 +387,16 @@ func (server *SugarDB) getState() map[int]map[string]interface{} {
 	}
 	verif.Point("ks.getState.copy")
 	data := make(map[int]map[string]interface{})
+	// The in-progress flags only hold back write commands; lazy expiry, eviction and the expiry
+	// sampler also change the store, so the copy is taken under the store lock.
+	server.storeLock.RLock()
 	for db, store := range server.store {
 		data[db] = make(map[string]interface{})
 		for k, v := range store {
 			data[db][k] = v
 		}
 	}
+	server.storeLock.RUnlock()
 	server.stateCopyInProgress.Store(false)
 	return data
 }
